@@ -132,7 +132,8 @@ def run_check(prop, tier):
             "states": sum(r["states"] for r in results),
             "transitions": sum(r["transitions"] for r in results),
             "traces_validated_against_impl": execs,
-            "evaluations": execs,
+            "evaluations": execs + sum(r.get("user_cases", 0) for r in results),
+            "sequential_cases": sum(r.get("user_cases", 0) for r in results),
             "distinct_nontrivial": sum(r["last_pass_nontrivial"] for r in results),
             "distinct_outcomes": sum(r["outcomes"] for r in results),
             "rule": "every case is one complete execution of the real compiled libfiber code under the fmc scheduler; cases are "
@@ -148,7 +149,7 @@ def run_check(prop, tier):
                     "completed_P": r["completed_P"], "complete": r["complete"], "site_set_closed": r["closed"],
                     "executions": r["execs"], "final_pass_executions": r["last_pass_execs"], "outcomes": r["outcomes"],
                     "max_choice_points": r["max_cp"], "shared_sites": r["sites"], "kernel_threads": r["threads"],
-                    "inconclusive": r["inconclusive"], "wall_s": r["wall_s"],
+                    "inconclusive": r["inconclusive"], "wall_s": r["wall_s"], "cases_enumerated_inside_one_execution": r.get("user_cases", 0),
                     "failures": [{"verdict": f["verdict"], "msg": f.get("msg_sym", f["msg"]), "count": f["count"], "cost_PDE": f["cost"]} for f in r["failures"]],
                 } for r in results
             ],
